@@ -60,6 +60,10 @@ type Step struct {
 	// context. Every span the SDK hands out, recording or dropped, leads back
 	// to the SDK's provider.
 	ViaSpan bool `json:"via_span,omitempty"`
+	// PopTID (ctx only): the supplied parent's trace ID was made like the custom
+	// generator's (pseudo-random trailing half, leading half of shape IDHi):
+	// a trace started elsewhere by a system with that kind of IDs.
+	PopTID bool `json:"pop_tid,omitempty"`
 	// StartTS (start steps) / EndTS (end steps): an explicit timestamp handed
 	// to Start / End through trace.WithTimestamp. The statement's coupling of
 	// decision and export holds for every started span, whatever times its
@@ -127,11 +131,16 @@ func (ts TSpec) option(spanStart time.Time) (trace.SpanEventOption, bool) {
 
 // PipeCase is one generated input of the pipeline check.
 type PipeCase struct {
-	Sampler Node   `json:"sampler"`
-	SeqIDs  bool   `json:"seq_ids"` // custom sequential IDGenerator instead of the default one
-	TIDSeed uint64 `json:"tid_seed"`
-	SIDSeed uint64 `json:"sid_seed"`
-	Syncer  bool   `json:"syncer"` // WithSyncer(exp) instead of WithSpanProcessor(NewSimpleSpanProcessor(exp))
+	Sampler Node `json:"sampler"`
+	SeqIDs  bool `json:"seq_ids"` // custom sequential IDGenerator instead of the default one
+	// IDHi: what the leading eight bytes of the custom generator's trace IDs
+	// hold (zero padding, constant, epoch prefix, ...; "" = the constant seqHi);
+	// the trailing eight bytes are a bijective hash of a counter. Supplied
+	// parents with PopTID carry trace IDs of the same make.
+	IDHi    HiShape `json:"id_hi"`
+	TIDSeed uint64  `json:"tid_seed"`
+	SIDSeed uint64  `json:"sid_seed"`
+	Syncer  bool    `json:"syncer"` // WithSyncer(exp) instead of WithSpanProcessor(NewSimpleSpanProcessor(exp))
 	// Batch: 0 = simple processor (or syncer), 1 = BatchSpanProcessor, 2 =
 	// BatchSpanProcessor WithBlocking(); the harness calls ForceFlush before it
 	// looks at the exporter, so "reaches exporters exactly when sampled" is
@@ -318,6 +327,7 @@ func genPipe(t *rapid.T) PipeCase {
 		}
 	}
 	c.SeqIDs = rapid.IntRange(0, 9).Draw(t, "seq_ids") < 6
+	c.IDHi = genHiShape(t, "id_hi")
 	c.TIDSeed = rapid.Uint64().Draw(t, "tid_seed")
 	c.SIDSeed = rapid.Uint64().Draw(t, "sid_seed")
 	c.Syncer = rapid.Bool().Draw(t, "syncer")
@@ -326,11 +336,20 @@ func genPipe(t *rapid.T) PipeCase {
 
 	pool := []string{genTIDHex(t, false, "pool0"), genTIDHex(t, false, "pool1"), genTIDHex(t, false, "pool2")}
 	n := rapid.IntRange(1, 40).Draw(t, "nsteps")
+	// now and then a long program with many traces (the share of a ratio
+	// sampler deciding them becomes judgeable within the case)
+	big := rapid.IntRange(0, 9).Draw(t, "big_program") == 0
+	if big {
+		n = rapid.IntRange(41, 400).Draw(t, "nsteps_big")
+	}
 	started := 0
 	for i := 0; i < n; i++ {
 		ops := []string{"root", "root", "ctx", "ctx", "ctx"}
 		if started > 0 {
 			ops = append(ops, "child", "child", "child", "child", "child", "end", "end", "end")
+		}
+		if big {
+			ops = append([]string{"root", "root", "root", "root", "root", "root", "ctx", "ctx", "ctx", "ctx"}, ops...)
 		}
 		s := Step{Op: rapid.SampledFrom(ops).Draw(t, "op")}
 		switch s.Op {
@@ -356,6 +375,10 @@ func genPipe(t *rapid.T) PipeCase {
 			switch k := rapid.IntRange(0, 9).Draw(t, "ptid"); {
 			case k == 9:
 				psc.TID = tidHex(0, 0)
+			case k <= 2 || (big && k <= 5):
+				tid := popTID(c.IDHi, ^c.TIDSeed, i)
+				psc.TID = tidHex(tidHi(tid), tidLo(tid))
+				s.PopTID = true
 			case k >= 7:
 				psc.TID = genTIDHex(t, false, "ptid_new")
 			default:
@@ -550,6 +573,7 @@ const seqHi = 0x5e9c0900c09c095e
 // counter, so they never repeat within a run.
 type seqGen struct {
 	mu               sync.Mutex
+	hi               HiShape
 	tidSeed, sidSeed uint64
 	nt, ns           uint64
 }
@@ -567,7 +591,15 @@ func (g *seqGen) NewIDs(context.Context) (trace.TraceID, trace.SpanID) {
 	g.mu.Lock()
 	defer g.mu.Unlock()
 	g.nt++
-	return tidFromHalves(seqHi, splitmix64(g.tidSeed+g.nt)), g.nextSID()
+	return g.tid(g.nt), g.nextSID()
+}
+
+// tid is the k-th trace ID the generator hands out.
+func (g *seqGen) tid(k uint64) trace.TraceID {
+	if g.hi.Style == "" {
+		return tidFromHalves(seqHi, splitmix64(g.tidSeed+k))
+	}
+	return popTID(g.hi, g.tidSeed, int(k))
 }
 
 func (g *seqGen) NewSpanID(context.Context, trace.TraceID) trace.SpanID {
@@ -734,8 +766,15 @@ func runPipe(c PipeCase) ([]vk.Violation, vk.Info) {
 	default:
 		opts = append(opts, sdktrace.WithSpanProcessor(sdktrace.NewSimpleSpanProcessor(exp)))
 	}
+	// the trace IDs the custom generator can hand out in this run: supplied
+	// parents must not carry one of them (they would not be "fresh" later)
+	genTIDs := map[trace.TraceID]bool{}
 	if c.SeqIDs {
-		opts = append(opts, sdktrace.WithIDGenerator(&seqGen{tidSeed: c.TIDSeed, sidSeed: c.SIDSeed}))
+		g := &seqGen{hi: c.IDHi, tidSeed: c.TIDSeed, sidSeed: c.SIDSeed}
+		opts = append(opts, sdktrace.WithIDGenerator(g))
+		for k := 1; k <= len(c.Steps)+1; k++ {
+			genTIDs[g.tid(uint64(k))] = true
+		}
 	}
 	procName := "simple"
 	switch {
@@ -771,6 +810,10 @@ func runPipe(c PipeCase) ([]vk.Violation, vk.Info) {
 		sampled bool
 	}
 	ratioSeen := map[trace.TraceID][]ratioObs{}
+	// shareSeen: per ratio r (float bits) the traces a TraceIDRatioBased(r)
+	// leaf decided whose trace IDs have a pseudo-random trailing half by
+	// construction (custom generator, PopTID parents) -> the span's sampled flag
+	shareSeen := map[uint64]map[trace.TraceID]bool{}
 	decisions := map[int]bool{}
 	hasEdge := false
 
@@ -838,6 +881,7 @@ func runPipe(c PipeCase) ([]vk.Violation, vk.Info) {
 		ctx := context.Background()
 		var inCtx trace.SpanContext // what the context carries
 		depth := 0
+		popParent := false // the supplied parent's trace ID is of the population make
 		switch st.Op {
 		case "child":
 			if len(spans) == 0 {
@@ -850,9 +894,15 @@ func runPipe(c PipeCase) ([]vk.Violation, vk.Info) {
 			info.ClassIf(p.decision == 1, "parent:record_only_local_span")
 		case "ctx":
 			sc := st.PSC.build()
-			if tid := sc.TraceID(); c.SeqIDs && tidHi(tid) == seqHi {
-				tid[0] ^= 0x80 // keep supplied trace IDs apart from the sequential generator's
+			popParent = st.PopTID
+			if tid := sc.TraceID(); genTIDs[tid] {
+				// keep supplied trace IDs apart from the sequential generator's
+				for bit := 0; genTIDs[tid] && bit < 64; bit++ {
+					tid = sc.TraceID()
+					tid[bit/8] ^= 0x80 >> (bit % 8)
+				}
 				sc = sc.WithTraceID(tid)
+				popParent = false
 			}
 			ctx, inCtx, depth = ctxWith(sc), sc, 1
 		}
@@ -1047,6 +1097,26 @@ func runPipe(c PipeCase) ([]vk.Violation, vk.Info) {
 							}
 						}
 						ratioSeen[tid] = append(ratioSeen[tid], ratioObs{rr, s})
+						ofPop := false
+						switch {
+						case pValid:
+							ofPop = st.Op == "ctx" && popParent && tid == psc.TraceID()
+						case !pTIDValid:
+							// a root: its trace ID comes from the custom generator or
+							// from the SDK's default one ("from a randomly-chosen
+							// sequence")
+							ofPop = !c.SeqIDs || genTIDs[tid]
+						}
+						if ofPop && rr > 0 && rr < 1 {
+							m := shareSeen[math.Float64bits(rr)]
+							if m == nil {
+								m = map[trace.TraceID]bool{}
+								shareSeen[math.Float64bits(rr)] = m
+							}
+							if _, dup := m[tid]; !dup {
+								m[tid] = sc.IsSampled()
+							}
+						}
 						info.ClassIf(rr > 0 && rr < 1, "leaf:ratio_interior")
 					}
 				}
@@ -1102,6 +1172,7 @@ func runPipe(c PipeCase) ([]vk.Violation, vk.Info) {
 		info.ClassIf(st.Op == "ctx" && pValid && !psc.IsRemote(), "start:local_spancontext_parent")
 		info.ClassIf(st.Op == "ctx" && !st.NewRoot && !pValid && !halfValid, "start:invalid_parent(zero trace ID)")
 		info.ClassIf(halfValid, "start:half_valid_parent(zero span ID)")
+		info.ClassIf(st.Op == "ctx" && popParent && pValid, "start:parent_trace_id_of_the_generator's_make")
 		info.ClassIf(pValid && psc.TraceFlags()&^trace.FlagsSampled != 0, "start:parent_with_extra_flag_bits")
 		info.ClassIf(pValid && psc.TraceState().Len() > 0, "start:parent_with_tracestate")
 		info.ClassIf(haveResult && result.Decision == sdktrace.RecordOnly, "decision:record_only")
@@ -1141,10 +1212,33 @@ func runPipe(c PipeCase) ([]vk.Violation, vk.Info) {
 	}
 	exp.mu.Unlock()
 
+	// ---- the sampled share of the traces a ratio sampler decided ----
+	idSource := "default IDGenerator"
+	if c.SeqIDs {
+		idSource = "custom IDGenerator, leading eight bytes: " + c.IDHi.String()
+	}
+	for bits, m := range shareSeen {
+		rr := math.Float64frombits(bits)
+		n, count := len(m), 0
+		for _, s := range m {
+			if s {
+				count++
+			}
+		}
+		want, tol := float64(n)*rr, shareTol(n, rr)
+		if math.Abs(float64(count)-want) > tol {
+			bad("ratio_share_off_in_program", "TraceIDRatioBased(%v) decided %d traces of this program whose trace IDs have a (pseudo-)random trailing half (%s; supplied parents' leading eight bytes: %s): %d are sampled, expected %.1f +- %.1f", rr, n, idSource, c.IDHi, count, want, tol)
+		}
+		info.ClassIf(n >= 64, "share:ratio_leaf_decided>=64_traces")
+		info.ClassIf(tol < want || tol < float64(n)-want, "share:judgeable_in_program")
+	}
+
 	mixed := len(decisions) >= 2
 	info.NonTrivial = hasEdge && mixed
 	info.Class("top:" + c.Sampler.Kind)
 	info.ClassIf(c.SeqIDs, "idgen:custom_sequential")
+	info.ClassIf(c.SeqIDs, "idgen:leading_half_"+c.IDHi.Style)
+	info.ClassIf(len(c.Steps) > 40, "program:41..400_steps")
 	info.ClassIf(!c.SeqIDs, "idgen:default_random")
 	info.ClassIf(c.Sampler.Kind == "parent" && c.Sampler.RS == nil && c.Sampler.RN == nil && c.Sampler.LS == nil && c.Sampler.LN == nil, "top:parent_without_options")
 	info.ClassIf(hasEdge && mixed, "tree_with_mixed_decisions")
@@ -1159,6 +1253,14 @@ func scStr(sc trace.SpanContext) string {
 		k = "remote"
 	}
 	return fmt.Sprintf("{%s-%s flags %s tracestate %q %s}", sc.TraceID(), sc.SpanID(), sc.TraceFlags(), sc.TraceState().String(), k)
+}
+
+func tidLo(t trace.TraceID) uint64 {
+	var x uint64
+	for _, b := range t[8:] {
+		x = x<<8 | uint64(b)
+	}
+	return x
 }
 
 func tidHi(t trace.TraceID) uint64 {
@@ -1201,7 +1303,7 @@ func TestPipeline(t *testing.T) {
 	vk.Run(t, vk.Spec[PipeCase]{
 		Property: "C09", Check: "pipeline",
 		Rule: "a sampler from the grammar {AlwaysSample, NeverSample, TraceIDRatioBased(r), ParentBased(root, 0..4 options, nested to depth 2), Scripted(Drop/RecordOnly/RecordAndSample + attributes + parent/replaced/empty tracestate), none configured}, every node behind a recording decorator; trees expressible as OTEL_TRACES_SAMPLER (always_on, always_off, traceidratio, parentbased_*) are, in about half of their cases, configured through the environment instead of WithSampler (ratio spelled in 'g'/'f'/'e' forms, signs, leading zeros, blanks; name in any letter case) and judged against the programmatic tree for the denoted ratio; " +
-			"a program of 1..40 steps {start root, start child of a started span, start under a supplied span context (remote or local, valid / zero trace ID / zero span ID, sampled or not, extra flag bits, tracestate), each optionally WithNewRoot and optionally with an explicit start timestamp (any int64 unix nanos, the zero time, now +- up to 4000 s); end a span, optionally with an explicit end timestamp (start + {0, +-1ns .. +-1h}, any int64 unix nanos, the zero time), after 0..3 mutations {SetStatus, SetName, AddEvent, RecordError, SetAttributes, AddLink} and optionally WithStackTrace}; simple processor, WithSyncer, or BatchSpanProcessor (blocking or not, flushed by the harness before every look at the exporter) + in-memory exporter; default or custom sequential ID generator; " +
+			"a program of 1..40 (one in ten: 41..400, mostly new traces) steps {start root, start child of a started span, start under a supplied span context (remote or local, valid / zero trace ID / zero span ID, sampled or not, extra flag bits, tracestate), each optionally WithNewRoot and optionally with an explicit start timestamp (any int64 unix nanos, the zero time, now +- up to 4000 s); end a span, optionally with an explicit end timestamp (start + {0, +-1ns .. +-1h}, any int64 unix nanos, the zero time), after 0..3 mutations {SetStatus, SetName, AddEvent, RecordError, SetAttributes, AddLink} and optionally WithStackTrace}; simple processor, WithSyncer, or BatchSpanProcessor (blocking or not, flushed by the harness before every look at the exporter) + in-memory exporter; default or custom sequential ID generator whose trace IDs have a pseudo-random trailing half and a leading half of a drawn shape (zero = 64-bit IDs, ones, constant, epoch prefix, counter, single bit, copy, random), supplied parents partly with trace IDs of that make; the traces each TraceIDRatioBased(r) leaf decided (generator roots, such parents) are also judged for their sampled share (Bernstein bound, only decisive from some dozens of traces on); " +
 			"non-trivial = some span is the child of a started span and at least two different sampling decisions occur; distinct = distinct case encodings",
 		Quick: 2000, Thorough: 100000,
 		Gen: genPipe, Run: runPipe,
